@@ -145,6 +145,11 @@ func c13Program(tp c13Type, n int, idx []string, thorough bool) string {
 		// aliasing: results never alias the operand
 		sb.WriteString("y = mk()\nz = y[:]\nz.append(1)\nz2 = y + []\nz2.append(2)\nz3 = y * 1\nz3.append(3)\nz4 = list(y)\nz4.append(4)\nz5 = y[::1]\nz5.append(5)\n_res.append((6, 9, 0, 0, (y, z, z2, z3, z4, z5)))\n")
 		sb.WriteString("y = mk()\nz = y\ny += [5]\ny *= 2\n_res.append((6, 10, 0, 0, (y, z, y is z)))\n")
+		// results written to in place, two results from one operand, operands with spare capacity (after append / del)
+		sb.WriteString("for prep in [lambda q: None, lambda q: q.append(7), lambda q: delitem(q, 0) if q else None, lambda q: q.extend([7, 8, 9])]:\n" +
+			"    y = mk()\n    t(lambda: prep(y))\n    y0 = list(y)\n    c1 = y + [1]\n    c2 = y + [2]\n    c3 = y + []\n    c4 = y * 1\n    c5 = y[:]\n" +
+			"    for c in [c3, c4, c5]:\n        if c:\n            c[0] = 99\n        c.append(98)\n" +
+			"    _res.append((6, 14, 0, 0, (y == y0, c1, c2, c3, c4, c5)))\n")
 		sb.WriteString("y = mk()\nr = t(lambda: y.extend((1, 2)))\ny += (3,)\ny += 'ab'\n_res.append((6, 11, 0, 0, (r, y)))\n")
 	}
 	return sb.String()
